@@ -148,6 +148,71 @@ pub trait Check: Sync {
     fn max_workers(&self) -> usize {
         16
     }
+    /// An additional layer run by the driver after the cases (thorough tier): the workload under an
+    /// undefined-behaviour / data-race interpreter. Never the deciding oracle of a property.
+    fn sanitizer_leg(&self, _tier: Tier, _seed: u64) -> Option<Leg> {
+        None
+    }
+}
+
+/// Outcome of a sanitizer leg.
+pub struct Leg {
+    pub coverage: Value,
+    pub violations: Vec<(String, String, Value)>,
+    pub inconclusive: Vec<String>,
+}
+
+/// The case index under which a sanitizer-leg report is filed (and which `--replay` maps back to the leg).
+pub const LEG_CASE: u64 = u64::MAX;
+
+/// Run the miri14 crate (`/verif/harness/miri14`) under `cargo +nightly miri run`, with `seeds`
+/// scheduler seeds, and turn its output into a Leg: `want_prefix` lines are what the leg must have
+/// observed; an interpreter report is a violation; an interpreter that cannot be started, or that
+/// does not finish within `cap`, is inconclusive.
+pub fn run_miri_leg(want_prefix: &str, want_per_seed: u64, seeds: u64, cap: Duration) -> Leg {
+    let dir = format!("{VERIF_DIR}/harness/miri14");
+    let t0 = Instant::now();
+    let mut cmd = Command::new("cargo");
+    cmd.current_dir(&dir)
+        .args(["+nightly", "miri", "run", "--offline"])
+        .env("CARGO_NET_OFFLINE", "true")
+        .env("MIRIFLAGS", format!("-Zmiri-disable-isolation -Zmiri-many-seeds=0..{seeds}"))
+        .stdin(Stdio::null())
+        .stdout(Stdio::piped())
+        .stderr(Stdio::piped());
+    std::fs::copy("/repo/Cargo.lock", format!("{dir}/Cargo.lock")).ok();
+    let child = match cmd.spawn() {
+        Ok(c) => c,
+        Err(e) => return Leg { coverage: json!({"tool": "miri", "ran": false}), violations: vec![], inconclusive: vec![format!("miri leg: cargo could not be started: {e}")] },
+    };
+    let pid = child.id();
+    let (tx, rx) = std::sync::mpsc::channel();
+    std::thread::spawn(move || {
+        tx.send(child.wait_with_output()).ok();
+    });
+    let out = match rx.recv_timeout(cap) {
+        Ok(Ok(o)) => o,
+        Ok(Err(e)) => return Leg { coverage: json!({"tool": "miri", "ran": false}), violations: vec![], inconclusive: vec![format!("miri leg: {e}")] },
+        Err(_) => {
+            Command::new("kill").arg("-9").arg(pid.to_string()).status().ok();
+            return Leg { coverage: json!({"tool": "miri", "ran": false, "timed_out_after_s": cap.as_secs()}), violations: vec![], inconclusive: vec![format!("miri leg: no result within {}s", cap.as_secs())] };
+        }
+    };
+    let stdout = String::from_utf8_lossy(&out.stdout).to_string();
+    let stderr = String::from_utf8_lossy(&out.stderr).to_string();
+    let ok_lines: Vec<&str> = stdout.lines().filter(|l| l.starts_with("OK ")).collect();
+    let observed = ok_lines.iter().filter(|l| l.starts_with(want_prefix)).count() as u64;
+    let cov = json!({"tool": "cargo +nightly miri run (undefined-behaviour and data-race interpreter)", "ran": true, "scheduler_seeds": seeds, "steps_observed": ok_lines.len(), "steps_observed_for_this_property": observed, "sample_steps": ok_lines.iter().take(8).collect::<Vec<_>>(), "wall_s": t0.elapsed().as_secs_f64(), "exit_ok": out.status.success()});
+    let mut leg = Leg { coverage: cov, violations: vec![], inconclusive: vec![] };
+    let report = stderr.contains("Undefined Behavior") || stderr.contains("Data race detected") || stderr.contains("panicked at");
+    if report {
+        let first = stderr.lines().find(|l| l.contains("Undefined Behavior") || l.contains("Data race") || l.contains("panicked at")).unwrap_or("").to_string();
+        leg.violations.push(("sanitizer-report".into(), format!("miri: {first}"), json!({"stderr_tail": stderr.chars().rev().take(4000).collect::<String>().chars().rev().collect::<String>(), "stdout": stdout})));
+    } else if !out.status.success() || observed < want_per_seed * seeds {
+        // could not build / run (toolchain missing, sysroot not buildable offline, ...): not a verdict
+        leg.inconclusive.push(format!("miri leg did not complete (exit ok = {}, {} of {} expected steps): {}", out.status.success(), observed, want_per_seed * seeds, stderr.lines().rev().find(|l| l.contains("error")).unwrap_or("").chars().take(300).collect::<String>()));
+    }
+    leg
 }
 
 // ---------------------------------------------------------------------------------------------
@@ -499,7 +564,9 @@ pub fn driver_main(check: &dyn Check, tier: Tier, seed: u64, replay_idx: Option<
             }
         }
     }
-    if let Some(idx) = replay_idx {
+    if replay_idx == Some(LEG_CASE) {
+        // a sanitizer-leg report is replayed by running the leg again (below)
+    } else if let Some(idx) = replay_idx {
         match run_alone(id, tier, seed, idx, cap * 10) {
             Ok(v) => agg.absorb(&v),
             Err(why) => suspects.push((idx, why)),
@@ -643,6 +710,21 @@ pub fn driver_main(check: &dyn Check, tier: Tier, seed: u64, replay_idx: Option<
         ));
     }
 
+    // sanitizer leg (after the cases; thorough tier, or the replay of a leg report)
+    let mut leg_cov: Option<Value> = None;
+    if replay_idx.is_none() || replay_idx == Some(LEG_CASE) {
+        if let Some(leg) = check.sanitizer_leg(tier, seed) {
+            for (kind, what, detail) in leg.violations {
+                agg.violations.push((LEG_CASE, json!({"kind": kind, "tags": ["sanitizer-leg"], "what": what, "detail": detail})));
+            }
+            for s in leg.inconclusive {
+                agg.inconclusive_n += 1;
+                agg.inconclusive.push(s);
+            }
+            leg_cov = Some(leg.coverage);
+        }
+    }
+
     // classify violations
     let known = load_known(id);
     let mut printed_known: HashSet<String> = HashSet::new();
@@ -705,6 +787,9 @@ pub fn driver_main(check: &dyn Check, tier: Tier, seed: u64, replay_idx: Option<
     cov.insert("suspects".into(), json!(suspects.iter().map(|(i, w)| json!({"case": i, "why": w})).collect::<Vec<_>>()));
     for (k, v) in check.extra_coverage(tier, &agg.counters) {
         cov.insert(k, v);
+    }
+    if let Some(l) = leg_cov {
+        cov.insert("sanitizer_leg".into(), l);
     }
     let ev = json!({
         "property_id": id,
